@@ -899,6 +899,45 @@ def run(prog, rep, tier):
             rep.violation(R1317, ca17.path + "|prepend-zone|from-tz-offset", "cli_process_args: the zone in which the prepended datetime is printed (result element %d) can take the value of --tz-offset (derived from clap fields %s); "
                           "the two options are independent: without -u/-l/-z the field is printed in the local zone, whatever zone the log lines are read in" % (i_, sorted(flds_)))
 
+    # ------------------------------------------------------------ R13.18 the escape letters of --separator denote the characters C gives them
+    # "--separator adds only the requested bytes": the option's value goes through a hand-written escape
+    # table (`\\n`, `\\t`, `\\f`, ...).  The table is read from the MIR (a switch over the character after
+    # the backslash whose arms return a constant char): it must be injective - two letters with one value
+    # means one of them is not what the user asked for - and every letter that is a C escape
+    # (0 a b e f n r t v \\) must have C's value.
+    R1318 = rep.rule("R13.18", "the escape table of --separator is injective and agrees with the C escapes")
+    CESC = {"0": 0x00, "a": 0x07, "b": 0x08, "e": 0x1B, "f": 0x0C, "n": 0x0A, "r": 0x0D, "t": 0x09, "v": 0x0B, "\\": 0x5C, "'": 0x27, '"': 0x22, "?": 0x3F}
+    tabs18 = []
+    for p_ in prog.facts.bodies:
+        if not p_.startswith("<s4::unescape::") and not p_.startswith("s4::unescape::"):
+            continue
+        ub_ = prog.body(p_)
+        for bb in sorted(ub_.live):
+            t_ = ub_.term(bb)
+            if t_[0] != "switch" or len(t_) < 5 or t_[4] != "char" or len(t_[2]) < 4:
+                continue
+            tab_ = {}
+            for v_, tb_ in t_[2]:
+                for st in ub_.stmts(tb_):
+                    if st[0] == "=" and st[1] == [0] and st[2][0] == "agg" and isinstance(st[2][1], dict) and st[2][1].get("variant") == "Ok" and st[2][2] and st[2][2][0][0] == "k" and st[2][2][0][1] == "char":
+                        tab_[chr(int(v_))] = ord(st[2][2][0][2]) if isinstance(st[2][2][0][2], str) and len(st[2][2][0][2]) == 1 else st[2][2][0][2]
+            if len(tab_) >= 4:
+                tabs18.append((p_, tab_))
+    if len(tabs18) != 1:
+        raise CheckerError("R13.18: %d escape tables found in mod unescape" % len(tabs18))
+    p18, tab18 = tabs18[0]
+    rep.examined(R1318, p18 + "|table", sample={"letters": {k_: ("0x%02X" % v_ if isinstance(v_, int) else v_) for k_, v_ in sorted(tab18.items())}})
+    inv18 = {}
+    for k_, v_ in tab18.items():
+        inv18.setdefault(v_, []).append(k_)
+    for v_, ks_ in sorted(inv18.items(), key=str):
+        if len(ks_) > 1:
+            rep.violation(R1318, "unescape|same-value|%s" % "+".join(sorted(ks_)), "the escape table of --separator gives the letters %s the same character (%s); one of them is not the character the user asked for, "
+                          "so removing the requested separator from the output no longer leaves the undecorated messages" % (sorted("\\" + k_ for k_ in ks_), "0x%02X" % v_ if isinstance(v_, int) else v_))
+    for k_, v_ in sorted(tab18.items()):
+        if k_ in CESC and isinstance(v_, int) and v_ != CESC[k_]:
+            rep.violation(R1318, "unescape|not-c-value|%s" % k_, "the escape table of --separator turns '\\%s' into 0x%02X; the C escape it is documented as is 0x%02X" % (k_, v_, CESC[k_]))
+
     # ------------------------------------------------------------ R13.16 no two same-typed arguments change places on the way to the callee
     # The options reach the workers and the printers as long positional argument lists in which several
     # parameters share a type (two FixedOffsets: the zone log lines are read in, the zone datetimes are
